@@ -48,6 +48,11 @@ CHECKS = {
    text="Histories of 5-400 put/replace/remove/from/merge operations over key pools built to collide (Str[b] vs b, full 32-bit FNV-1a collisions found by birthday search, keys sharing the first 1-6 hash fragments) are compiled into one program that retains every version and observes get/has?/count/entries/keys/values on new and old versions; every observation must equal a BTreeMap model of that version.",
    design="§3 C19",
    note="Values are integers; iteration order is compared as a multiset (documented as unspecified)."),
+ "C18": dict(
+   technique="runtime monitoring: mutation/ladder workload over the corpus extracted from the current tree, catch_unwind + child-process isolation on an 8 MiB stack, position-consistency monitor, timing-based hang discipline",
+   text="Prefixes, single-token deletions/duplications/substitutions, character-level edits (NUL, multi-byte UTF-8, CRLF), numeric extremes in numeric positions, splices, token soup and 36 nesting ladders (value / pattern / type positions, depth <= 100) are parsed and, when accepted, compiled in the release profile inside child processes; no panic or abort may occur, every parse error position must lie inside the input and agree with its line, and ladders are judged by a scaling test (x4 per 4 levels twice and > 1 h extrapolated). Seven exponential parenthesised-type ladders are recorded as known findings.",
+   design="§3 C18, §2.8",
+   note="Slow/stalled non-ladder inputs are inconclusive. The libFuzzer job sketched in DESIGN is not built (mutation families + corpus play that role)."),
 }
 
 NOT_BUILT = "check not built yet in this round (work in progress; see DESIGN.md §6 build order)"
